@@ -55,6 +55,11 @@ pub struct Profile {
     pub compound: bool,
     /// reads of signals allowed in conditions (Circom forbids it for constraints, the analyser does not care)
     pub signal_conditions: bool,
+    /// exclusion switch (known finding F15): arguments of helper calls are control values only,
+    /// so no expression has an unknown degree that an array could then forget
+    pub calls_control_only: bool,
+    /// chance (of 256) that an infix operator is drawn from {+, -, *, *} instead of all 20
+    pub poly_bias: u32,
 }
 
 #[derive(Clone, Debug)]
@@ -91,6 +96,8 @@ impl Profile {
             nested_signal_assign: false,
             compound: true,
             signal_conditions: false,
+            calls_control_only: false,
+            poly_bias: 0,
         }
     }
     pub fn sem(template: bool, prime: BigUint) -> Profile {
@@ -118,6 +125,8 @@ impl Profile {
             nested_signal_assign: false,
             compound: true,
             signal_conditions: true,
+            calls_control_only: false,
+            poly_bias: 50,
         }
     }
 }
@@ -155,6 +164,10 @@ pub struct Gen<'a, 'b> {
     in_loop: usize,
     /// condition context: no data variables
     control_ctx: bool,
+    /// variables holding values that depend on indeterminates (signals, ports, data parameters)
+    tainted: std::collections::BTreeSet<usize>,
+    /// set when the expression generated last read something data-dependent
+    saw_data: bool,
 }
 
 fn boundary_literals(p: &BigUint) -> Vec<BigUint> {
@@ -199,6 +212,8 @@ impl<'a, 'b> Gen<'a, 'b> {
             budget: 0,
             in_loop: 0,
             control_ctx: false,
+            tainted: Default::default(),
+            saw_data: false,
         }
     }
 
@@ -334,7 +349,7 @@ impl<'a, 'b> Gen<'a, 'b> {
     }
 
     fn readable(&self, v: &VarInfo) -> bool {
-        if self.control_ctx && v.data {
+        if self.control_ctx && (v.data || (!self.p.signal_conditions && self.tainted.contains(&v.key))) {
             return false;
         }
         match &v.ty {
@@ -356,6 +371,9 @@ impl<'a, 'b> Gen<'a, 'b> {
             return None;
         }
         let v = vis[self.t.below(vis.len())].clone();
+        if v.data || self.tainted.contains(&v.key) || matches!(v.ty, Ty::Sig(_) | Ty::SigArr(..)) {
+            self.saw_data = true;
+        }
         let id = self.ids.next();
         Some(match v.ty {
             Ty::Var | Ty::Sig(_) => Expr::Var { id, name: v.name, access: vec![] },
@@ -387,6 +405,7 @@ impl<'a, 'b> Gen<'a, 'b> {
             return None;
         }
         let port = sig.outputs[self.t.below(sig.outputs.len())].clone();
+        self.saw_data = true;
         Some(Expr::Var { id: self.ids.next(), name: c.name, access: vec![Access::Field(port)] })
     }
 
@@ -394,7 +413,28 @@ impl<'a, 'b> Gen<'a, 'b> {
         match self.p.ops {
             OpsLevel::Trivial => *self.t.pick(&[Op::Add, Op::Lt, Op::Eq, Op::Sub]),
             OpsLevel::Arith => *self.t.pick(&[Op::Add, Op::Sub, Op::Mul, Op::Lt, Op::Eq, Op::Ne, Op::Le]),
-            OpsLevel::All => crate::field::ALL_OPS[self.t.below(20)],
+            OpsLevel::All => {
+                if self.p.poly_bias > 0 && self.t.chance(self.p.poly_bias) {
+                    *self.t.pick(&[Op::Add, Op::Sub, Op::Mul, Op::Mul])
+                } else {
+                    crate::field::ALL_OPS[self.t.below(20)]
+                }
+            }
+        }
+    }
+
+    /// Generate an expression and report whether it reads anything data-dependent.
+    fn expr_tracked(&mut self, depth: usize) -> (Expr, bool) {
+        let saved = std::mem::replace(&mut self.saw_data, false);
+        let e = self.expr(depth);
+        let data = self.saw_data;
+        self.saw_data = saved || data;
+        (e, data)
+    }
+
+    fn taint(&mut self, key: usize, data: bool) {
+        if data {
+            self.tainted.insert(key);
         }
     }
 
@@ -450,7 +490,12 @@ impl<'a, 'b> Gen<'a, 'b> {
             _ => {
                 if !self.p.helpers.is_empty() {
                     let (name, arity) = self.p.helpers[self.t.below(self.p.helpers.len())].clone();
+                    let saved = self.control_ctx;
+                    if self.p.calls_control_only {
+                        self.control_ctx = true;
+                    }
                     let args = (0..arity).map(|_| self.expr(depth - 1)).collect();
+                    self.control_ctx = saved;
                     Expr::Call { id: self.ids.next(), name, args }
                 } else {
                     self.read(depth).unwrap_or_else(|| self.literal())
@@ -510,7 +555,15 @@ impl<'a, 'b> Gen<'a, 'b> {
                 let init = if self.p.uninit_decl && self.t.chance(40) {
                     None
                 } else {
-                    let elems = (0..len).map(|_| self.expr(1)).collect();
+                    let mut any = false;
+                    let elems = (0..len)
+                        .map(|_| {
+                            let (e, d) = self.expr_tracked(1);
+                            any |= d;
+                            e
+                        })
+                        .collect();
+                    self.taint(key, any);
                     self.assigned.insert(key);
                     Some(Expr::ArrayLit { id: self.ids.next(), elems })
                 };
@@ -520,7 +573,8 @@ impl<'a, 'b> Gen<'a, 'b> {
                 let init = if self.p.uninit_decl && self.t.chance(60) {
                     None
                 } else {
-                    let e = self.expr(2);
+                    let (e, d) = self.expr_tracked(2);
+                    self.taint(key, d);
                     self.assigned.insert(key);
                     Some(e)
                 };
@@ -574,13 +628,16 @@ impl<'a, 'b> Gen<'a, 'b> {
                             let k = self.t.below(70) as u64;
                             self.small_literal(k)
                         } else {
-                            self.expr(1)
+                            let (e, d) = self.expr_tracked(1);
+                            self.taint(v.key, d);
+                            e
                         };
                         Stmt::Compound { id, name: v.name.clone(), access: vec![], op, rhs }
                     }
                     2 => Stmt::IncDec { id, name: v.name.clone(), access: vec![], inc: self.t.chance(160) },
                     _ => {
-                        let rhs = self.expr(2);
+                        let (rhs, d) = self.expr_tracked(2);
+                        self.taint(v.key, d);
                         let lhs = Expr::Var { id: self.ids.next(), name: v.name.clone(), access: vec![] };
                         Stmt::Assign { id, lhs, op: AssignOp::Var, rhs, reversed: false }
                     }
@@ -591,14 +648,23 @@ impl<'a, 'b> Gen<'a, 'b> {
             Ty::VarArr(n) => {
                 if !was_assigned || self.t.chance(60) {
                     // whole-array assignment
-                    let elems = (0..n).map(|_| self.expr(1)).collect();
+                    let mut any = false;
+                    let elems = (0..n)
+                        .map(|_| {
+                            let (e, d) = self.expr_tracked(1);
+                            any |= d;
+                            e
+                        })
+                        .collect();
+                    self.taint(v.key, any);
                     let rhs = Expr::ArrayLit { id: self.ids.next(), elems };
                     let lhs = Expr::Var { id: self.ids.next(), name: v.name.clone(), access: vec![] };
                     self.assigned.insert(v.key);
                     Some(Stmt::Assign { id, lhs, op: AssignOp::Var, rhs, reversed: false })
                 } else {
                     let ix = self.index_expr(n, 1);
-                    let rhs = self.expr(2);
+                    let (rhs, d) = self.expr_tracked(2);
+                    self.taint(v.key, d);
                     if self.p.compound && self.t.chance(50) {
                         let op = *self.t.pick(&[Op::Add, Op::Sub, Op::Mul]);
                         return Some(Stmt::Compound {
